@@ -24,6 +24,25 @@ IUPAC_PROT = {c: c for c in PROT}
 IUPAC_PROT.update({"B": "DN", "Z": "EQ", "X": PROT, "-": PROT, "?": PROT})
 STOPS = {"TAA", "TAG", "TGA"}
 
+# NCBI translation tables (typed in from the NCBI "The Genetic Codes" page, first/second/third base in TCAG order);
+# independent of cogent3.core.genetic_code
+GC_TABLES = {
+    1: "FFLLSSSSYY**CC*WLLLLPPPPHHQQRRRRIIIMTTTTNNKKSSRRVVVVAAAADDEEGGGG",
+    2: "FFLLSSSSYY**CCWWLLLLPPPPHHQQRRRRIIMMTTTTNNKKSS**VVVVAAAADDEEGGGG",
+    3: "FFLLSSSSYY**CCWWTTTTPPPPHHQQRRRRIIMMTTTTNNKKSSRRVVVVAAAADDEEGGGG",
+    4: "FFLLSSSSYY**CCWWLLLLPPPPHHQQRRRRIIIMTTTTNNKKSSRRVVVVAAAADDEEGGGG",
+    5: "FFLLSSSSYY**CCWWLLLLPPPPHHQQRRRRIIMMTTTTNNKKSSSSVVVVAAAADDEEGGGG",
+    6: "FFLLSSSSYYQQCC*WLLLLPPPPHHQQRRRRIIIMTTTTNNKKSSRRVVVVAAAADDEEGGGG",
+    11: "FFLLSSSSYY**CC*WLLLLPPPPHHQQRRRRIIIMTTTTNNKKSSRRVVVVAAAADDEEGGGG",
+}
+# codons whose synonymy / stop status differs between the tables above
+GC_SENSITIVE = ["ATA", "ATG", "ATT", "TGA", "TGG", "TGT", "AGA", "AGG", "AGT", "CGA", "CTG", "CTA", "ACA", "TAA", "TAG", "CAA", "TAT"]
+
+
+def translate(gc, codon):
+    return GC_TABLES[gc]["TCAG".index(codon[0]) * 16 + "TCAG".index(codon[1]) * 4 + "TCAG".index(codon[2])]
+
+
 _MODEL_CACHE = {}
 _KINDS = None
 
@@ -207,13 +226,25 @@ def rand_alignment(rng, kind, motifs, tree, ncols, ambig_rate=0.12, gap_rate=0.0
 
         def go(n, state):
             for c in n["children"]:
-                s = state if rng.random() < stay else rng.choice(motifs)
+                # no substitution across an edge shorter than 1e-5 (incl. the tiny 1e-6..1e-12 ones): a column that
+                # needs one has a likelihood at the rounding floor of the float64 matrix exponential, where
+                # neither lnL nor its invariances are numerically meaningful
+                short = c["len"] is not None and c["len"] < 1e-5
+                s = state if short or rng.random() < stay else rng.choice(motifs)
                 if c["children"]:
                     go(c, s)
                 else:
                     col[c["name"]] = s
 
-        go(tree, rng.choice(motifs))
+        pick = rng.choice
+        if kind == "codon" and rng.random() < 0.4:
+            # columns built from the codons whose amino acid depends on the genetic code
+            special = [m for m in GC_SENSITIVE if m in motifs]
+            motifs_, motifs = motifs, special or motifs
+            go(tree, rng.choice(motifs))
+            motifs = motifs_
+        else:
+            go(tree, rng.choice(motifs))
         for t in tips:
             r = rng.random()
             if r < gap_rate and not gaps:
@@ -247,13 +278,14 @@ def rand_mprobs(rng, motifs):
 
 
 def rand_problem(rng, name, ntips=None, ncols=None, bins=None, new_type=None, scoped=None, unary=False, root_deg=None,
-                 zero_ok=True):
+                 zero_ok=True, gc=None):
     """a JSON-able description of one likelihood-function problem"""
     kind = kind_of(name)
     if ntips is None:
         ntips = rng.randint(3, 7) if kind in ("nucleotide", "dinucleotide") else rng.randint(3, 5)
     tree = rand_tree(rng, ntips, unary=unary, root_deg=root_deg, zero_ok=zero_ok)
-    sm = get_sm(name)
+    base_kw = {"gc": gc} if gc is not None and kind == "codon" else {}
+    sm = get_sm(name, **base_kw)
     motifs = [str(m) for m in sm.get_alphabet()]
     if ncols is None:
         ncols = rng.randint(4, 24) if kind in ("nucleotide", "dinucleotide") else rng.randint(3, 10)
@@ -263,7 +295,7 @@ def rand_problem(rng, name, ntips=None, ncols=None, bins=None, new_type=None, sc
         moltype="protein" if kind == "protein" else "dna",
         new_type=bool(rng.random() < 0.5) if new_type is None else new_type,
         mprobs=rand_mprobs(rng, motifs) if rng.random() < 0.8 else None,
-        rules=[], bins=1, model_kw={},
+        rules=[], bins=1, model_kw=dict(base_kw),
     )
     if bins is None:
         if name in DISCRETE:
@@ -274,7 +306,7 @@ def rand_problem(rng, name, ntips=None, ncols=None, bins=None, new_type=None, sc
             bins = rng.choice([1, 1, 1, 2, 3, 4])
     if bins > 1 and name not in DISCRETE:
         spec["bins"] = bins
-        spec["model_kw"] = dict(ordered_param="rate", distribution=rng.choice(["gamma", "free"]))
+        spec["model_kw"] = dict(base_kw, ordered_param="rate", distribution=rng.choice(["gamma", "free"]))
     spec["scoped"] = bool(rng.random() < 0.4) if scoped is None else scoped
     spec["seed"] = rng.randrange(1 << 30)
     return spec
